@@ -39,6 +39,7 @@ L_ALPHA = math.log(1.0 / ALPHA)
 MIN_EXP = 200.0
 CTOL = 5e-5              # tape correspondence: |impl - model| <= CTOL * max(1, |model|)
 TIMEOUT = 60
+INTENSIFIED_N = 400000   # points per parameter row of the distribution oracle when a correspondence is unusable
 OUT_TOL = 1e-4           # normalised distance beyond which a point counts as outside its domain
 PRIMS = ("interval", "par", "tri", "circle", "sphere")
 
@@ -1018,7 +1019,7 @@ def desc(case):
 
 
 def inp_of(case):
-    return dict(case, expression=desc(case))
+    return dict({k: v for k, v in case.items() if not k.startswith("_")}, expression=desc(case))
 
 
 def fail_law(rep, case, what, row, verdict, finding=None, extra=None):
@@ -1046,7 +1047,7 @@ def run_tape(tp, case, lines):
         res = common.call_with_timeout(TIMEOUT, lambda: dom.sample_random_uniform(n=n, params=params))
     kk = max(len(prows), 1)
     X = coords_of(node, res, len(res))
-    out = dict(X=X, lines=[], reqs=[])
+    out = dict(X=X, lines=[], reqs=[], draws=[])
     if len(X) != n * kk:
         out["error"] = f"{len(X)} rows returned for n={n} and {len(prows)} parameter rows"
         return out
@@ -1062,6 +1063,7 @@ def run_tape(tp, case, lines):
                 r += [float(x) for x in T[i, j].reshape(-1).tolist()]
             env = prows[i] if prows else {}
             out["reqs"].append(f"prim {dt} {env_tokens(env)} {common.lst(r, common.q)}")
+            out["draws"].append((env, r))
     return out
 
 
@@ -1074,31 +1076,104 @@ def near_tie(node, line):
     return False
 
 
-def judge_tape(rep, case, out, replies):
+def _tape_row_ok(impl, rl):
+    if rl.startswith("err") or rl.startswith("bad-op"):
+        return False
+    model = [common.unfbits(t) for t in rl.split()]
+    return len(model) == len(impl) and all(math.isfinite(a_) and abs(a_ - b_) <= CTOL * max(1.0, abs(b_)) for a_, b_ in zip(impl, model))
+
+
+def judge_tape(rep, case, out, replies, retry):
+    """first pass of the tape correspondence.  A case whose draws do not have one slot per output row (`pattern`) or whose
+    points differ from the model parametrisation at the recorded draws (`values`) goes to `resolve_tape_retries`."""
     node = geomgen.from_json(case["dom"])
     if "error" in out:
         rep.fail("sample_random_uniform: " + out["error"], inp_of(case))
         return
     if "shape" in out:
-        rep.disagree("tape correspondence: the draws of the call do not have one slot per output row", inp_of(case), out["shape"], None)
+        retry.append(dict(case=case, out=out, why="pattern"))
         return
     X = out["X"]
     for r, (line, rl) in enumerate(zip(out["reqs"], replies)):
         impl = [float(x) for x in X[r]]
-        if rl.startswith("err") or rl.startswith("bad-op"):
-            rep.disagree("drivers/C11.lean prim: the model rejects the request", dict(inp_of(case), request=line), impl, rl)
-            return
-        model = [common.unfbits(t) for t in rl.split()]
-        bad = len(model) != len(impl) or any((not math.isfinite(a)) or abs(a - b) > CTOL * max(1.0, abs(b)) for a, b in zip(impl, model))
-        if bad:
+        if not _tape_row_ok(impl, rl):
             if near_tie(node, line):
                 rep.count("tape:near-tie(skipped)")
                 continue
-            rep.disagree("tape correspondence: identical draws must give identical points (parametrisation " + node.kind +
-                         (":" + node.kids[0].kind if node.kids else "") + ")", dict(inp_of(case), request=line, row=r), impl, model)
+            retry.append(dict(case=case, out=out, why="values", row=r, model=rl))
             return
         rep.count("tape:rows-agree")
     rep.traces_validated += 1
+
+
+def _rereadings(m):
+    """the measure-preserving re-readings of a row of m uniform draws that the correspondence accepts: permutations of the
+    draws combined with reflections u -> 1 - u (Props/C11.lean: law_of_reparam, reflect_uniform_mp, swap_uniform_mp)"""
+    import itertools
+    out = []
+    for perm in itertools.permutations(range(m)):
+        for mask in itertools.product((0, 1), repeat=m):
+            if perm == tuple(range(m)) and not any(mask):
+                continue
+            out.append((perm, mask))
+    return out
+
+
+def resolve_tape_retries(tp, rep, retry):
+    """second pass: (1) a value mismatch is re-read with permuted / reflected draws; (2) what still differs, and every case
+    whose draws cannot be cut into rows, is `tape-unusable`: the distribution oracle is run at an intensified sample size for
+    exactly that case.  A deviation is a failing input.  No deviation: a changed call pattern is accepted silently (the
+    theorem-relevant content, the law, was searched); a different MAP of the same draws stays a reported disagreement."""
+    lines, spans = [], []
+    for job in retry:
+        a0 = len(lines)
+        job["sigmas"] = []
+        if job["why"] == "values":
+            dt = geomgen.from_json(job["case"]["dom"]).tokens()
+            m = len(job["out"]["draws"][0][1]) if job["out"]["draws"] else 0
+            if m <= 3:
+                job["sigmas"] = _rereadings(m)
+                for perm, mask in job["sigmas"]:
+                    for env, r in job["out"]["draws"]:
+                        rr = [(1 - Fr(r[p])) if mk else Fr(r[p]) for p, mk in zip(perm, mask)]
+                        lines.append(f"prim {dt} {env_tokens(env)} {common.lst(rr, common.q)}")
+        spans.append((a0, len(lines)))
+    replies = common.run_driver("C11", lines) if lines else []
+    for job, (a0, a1) in zip(retry, spans):
+        case, out = job["case"], job["out"]
+        node = geomgen.from_json(case["dom"])
+        X = out["X"]
+        nrow = len(out["draws"])
+        found = None
+        for si, sg in enumerate(job["sigmas"]):
+            rs = replies[a0 + si * nrow:a0 + (si + 1) * nrow]
+            if all(_tape_row_ok([float(x) for x in X[r]], rl) for r, rl in enumerate(rs)):
+                found = sg
+                break
+        if found is not None:
+            rep.count("tape:agrees-after-rereading-the-draws(perm=%s,reflect=%s)" % ("".join(map(str, found[0])), "".join(map(str, found[1]))))
+            rep.count("tape:rows-agree", nrow)
+            rep.traces_validated += 1
+            continue
+        rep.count("tape-unusable:" + job["why"])
+        set_naming(case)
+        big = dict(case, N=INTENSIFIED_N, api="dom.n")
+        try:
+            import torch
+            torch.manual_seed(case["seed"] + 7)
+            Xs = sample_big(tp, build_tp(node, tp), node, big, "dom.n", INTENSIFIED_N)
+            bad = law_tests(rep, big, node, Xs, tag=f"(tape unusable: {job['why']}; intensified sample) ")
+        except (common.CallTimeout, RowCount) as e:
+            rep.fail(f"tape case, intensified sample: {e}", inp_of(case))
+            continue
+        if bad == 0 and job["why"] == "values":
+            r = job["row"]
+            rep.disagree("tape correspondence: identical draws must give identical points, also after permuting / reflecting the draws "
+                         "(parametrisation " + node.kind + (":" + node.kids[0].kind if node.kids else "") + "); the distribution oracle at "
+                         f"{INTENSIFIED_N} points per parameter row found no deviation from the law", dict(inp_of(case), request=out["reqs"][r], row=r),
+                         [float(x) for x in X[r]], job["model"])
+        elif bad == 0:
+            rep.count("tape-unusable:law-confirmed-by-intensified-oracle")
 
 
 def law_tests(rep, case, node, Xs, tag=""):
@@ -1147,14 +1222,9 @@ def csg_probs(node, env, dim, g=6):
     return geom, bounds, [a / tot for a in areas], tot
 
 
-def run_csg(tp, rep, case):
-    import torch
-    node = geomgen.from_json(case["dom"])
-    dim = DIM[node.vars()[0]]
-    dom = build_tp(node, tp)
-    torch.manual_seed(case["seed"])
-    Xs = sample_big(tp, dom, node, case, case["api"], case["N"])
+def csg_tests(rep, case, node, Xs, dim, tag=""):
     g = 6 if dim == 2 else 12
+    bad = 0
     for i, X in enumerate(Xs):
         env = fenv(row_env(case, i))
         geom, bounds, probs, tot = csg_probs(node, env, dim, g)
@@ -1164,10 +1234,22 @@ def run_csg(tp, rep, case):
         rep.count("chi2-tests")
         v = chi2_decide(counts, probs, labels)
         if not v["ok"]:
+            bad += 1
             w = v["worst"]
-            fail_law(rep, case, f"the sample is not uniform: {w['cell']} received {w['observed']} of {v['N']} points, its share of the measure gives "
+            fail_law(rep, case, f"{tag}the sample is not uniform: {w['cell']} received {w['observed']} of {v['N']} points, its share of the measure gives "
                      f"{w['expected']} (chi-square {v['stat']} > {v['bound']}, df {v['df']})", row_env_json(case, i), v,
                      extra=dict(counts=counts, probabilities=probs, measure=tot))
+    return bad
+
+
+def run_csg(tp, rep, case):
+    import torch
+    node = geomgen.from_json(case["dom"])
+    dim = DIM[node.vars()[0]]
+    dom = build_tp(node, tp)
+    torch.manual_seed(case["seed"])
+    Xs = sample_big(tp, dom, node, case, case["api"], case["N"])
+    csg_tests(rep, case, node, Xs, dim)
 
 
 def run_sel(tp, rep, case, lines, posts):
@@ -1202,36 +1284,80 @@ def run_sel(tp, rep, case, lines, posts):
     if i != len(log) or not rounds or len(out) != n * kk:
         rep.count("sel:not-applicable")
         return
-    subs, pos = [], 0
-    for _ in range(kk):
-        cnt = 0
-        while pos + cnt < len(rounds):
-            cnt += 1
-            if sum(rounds[pos + cnt - 1]["ok"]) >= n:
-                break
-        subs.append(rounds[pos:pos + cnt]); pos += cnt
-    if pos != len(rounds):
-        rep.disagree("rejection loop: a parameter row keeps proposing after a round with >= n accepted proposals", inp_of(case), len(rounds), pos)
-        return
-    for r, sub in enumerate(subs):
-        lines.append(f"inside {n} {len(sub) + 2} " + common.lst(sub, lambda rd: common.lst(rd["ok"], common.q)))
+    # Which accepted proposals may be returned?  The law theorems (rejection_uniform, joint_accepted_law) need: the output
+    # rows are accepted proposals, none used twice, chosen by a rule that does not look at their values.  Two such rules are
+    # modelled (insideRow: first n of the first round with >= n accepted; accLoop: first n of the accumulated stream); any
+    # other selection of accepted proposals is accepted after an intensified distribution test of this very case.
+    def split(rule):
+        subs_, pos_ = [], 0
+        for _ in range(kk):
+            cnt, acc_ = 0, 0
+            while pos_ + cnt < len(rounds):
+                cnt += 1
+                got_ = sum(rounds[pos_ + cnt - 1]["ok"])
+                acc_ += got_
+                if (got_ if rule == "restart" else acc_) >= n:
+                    break
+            subs_.append(rounds[pos_:pos_ + cnt]); pos_ += cnt
+        return subs_ if pos_ == len(rounds) and len(subs_) == kk and all(subs_) else None
+    cands = []
+    for rule, op in (("restart", "inside"), ("accumulate", "acc")):
+        sp = split(rule)
+        if sp is not None:
+            a0 = len(lines)
+            for sub in sp:
+                lines.append(f"{op} {n} {len(sub) + 2} " + common.lst(sub, lambda rd: common.lst(rd["ok"], common.q)))
+            cands.append((rule, sp, len(lines) - a0))
+    nrep = sum(c[2] for c in cands)
 
-        def post(reply, sub=sub, r=r):
-            if reply.startswith("err") or reply.startswith("bad-op"):
-                rep.disagree("drivers/C11.lean inside: model gives no result", inp_of(case), None, reply)
-                return
-            rq, idx = reply.split("|")
-            # the sizes of the requests (req^2/valid + 1, 5 req) are internals without influence on the law: not compared
-            exp = [sub[int(t.split(":")[0])]["pts"][int(t.split(":")[1])] for t in idx.split()]
-            exp = torch.stack(exp) if exp else torch.zeros((0, out.shape[1]))
-            got = out[r * n:(r + 1) * n]
-            if exp.shape != got.shape or not torch.equal(exp, got):
-                rep.disagree("rejection loop: the output is the first n accepted proposals of the deciding round, in proposal order",
-                             dict(inp_of(case), parameter_row=r), got.tolist()[:5], exp.tolist()[:5])
-            else:
-                rep.count("sel:first-n-accepted-agrees")
+    def post(*replies):
+        pos = 0
+        for rule, sp, cnt in cands:
+            rs = replies[pos:pos + cnt]; pos += cnt
+            good = True
+            for r, (sub, reply) in enumerate(zip(sp, rs)):
+                if reply.startswith("err") or reply.startswith("bad-op"):
+                    good = False
+                    break
+                idx = reply.split("|")[1]
+                exp = [sub[int(t.split(":")[0])]["pts"][int(t.split(":")[1])] for t in idx.split()]
+                exp = torch.stack(exp) if exp else torch.zeros((0, out.shape[1]))
+                got = out[r * n:(r + 1) * n]
+                if exp.shape != got.shape or not torch.equal(exp, got):
+                    good = False
+                    break
+            if good:
+                rep.count("sel:agrees:" + ("first-n-of-the-deciding-round" if rule == "restart" else "first-n-of-the-accumulated-stream"))
                 rep.traces_validated += 1
-        posts.append(post)
+                return
+        # neither modelled rule: every output row must still be an accepted proposal, none used twice
+        pool = {}
+        for rd in rounds:
+            for p_, ok_ in zip(rd["pts"], rd["ok"]):
+                if ok_:
+                    key = tuple(p_.tolist())
+                    pool[key] = pool.get(key, 0) + 1
+        for r in range(len(out)):
+            key = tuple(out[r].tolist())
+            if pool.get(key, 0) <= 0:
+                rep.disagree("rejection loop: every returned row must be one of the accepted proposals of the call, none returned twice",
+                             dict(inp_of(case), row=r), out[r].tolist(), "not among the (remaining) accepted proposals")
+                return
+            pool[key] -= 1
+        rep.count("tape-unusable:selection-rule-not-modelled")
+        set_naming(case)
+        try:
+            torch.manual_seed(case["seed"] + 11)
+            big = dict(case, N=INTENSIFIED_N // 2, api="dom.n")
+            dim_ = DIM[node.vars()[0]]
+            Xs = sample_big(tp, build_tp(node, tp), node, big, "dom.n", big["N"])
+            bad = csg_tests(rep, big, node, Xs, dim_, tag="(selection rule of the rejection loop not modelled; intensified sample) ")
+        except (common.CallTimeout, RowCount) as e:
+            rep.fail(f"csg case, intensified sample: {e}", inp_of(case))
+            return
+        if bad == 0:
+            rep.count("tape-unusable:selection-law-confirmed-by-intensified-oracle")
+    posts.append((post, nrep))
 
 
 def run_union(tp, rep, case, lines, posts):
@@ -1543,11 +1669,65 @@ def run_lhs(tp, rep, case, lines, posts):
             res = common.call_with_timeout(TIMEOUT, lambda: sampler.sample_points(params))
         X32 = torch.cat([res.coordinates[nm(v)].reshape(len(res), -1) for v in node.vars()], dim=1).clone()
         res.as_tensor.add_(1000.0)
-        if not _lhs_call(tp, rep, case, lines, posts, node, dom, prows, params, n, tape, X32, call):
+        if not _lhs_call(tp, rep, case, lines, posts, node, dom, prows, params, n, tape, X32, call, sampler):
             return
+    if case.pop("_lhs_tape_unusable", False):
+        lhs_intensified(tp, rep, case, node, sampler, prows, params, n)
 
 
-def _lhs_call(tp, rep, case, lines, posts, node, dom, prows, params, n, tape, X32, call):
+def lhs_intensified(tp, rep, case, node, sampler, prows, params, n):
+    """what `lhs_one_per_slab` + uniform shifts + uniform permutation mean for the OUTPUT, tested on many designs of the
+    same sampler object: exactly one point per slab (every design, every row, every axis), the offsets inside the slabs are
+    uniform, the slab of the first output row is uniform over the slabs (a fixed assignment, e.g. no permutation, fails)"""
+    import torch
+    kk = max(len(prows), 1)
+    dim = sum(DIM[v] for v in node.vars())
+    calls = min(1500, max(math.ceil(1000 / (dim * kk)), math.ceil(12000 / (n * dim * kk))))
+    offs, first = [], []
+    bounds_rows = [box_bounds(node, prows[i] if prows else {}) for i in range(kk)]
+    torch.manual_seed(case["seed"] + 99)
+    for c in range(calls):
+        res = common.call_with_timeout(TIMEOUT, lambda: sampler.sample_points(params))
+        X = torch.cat([res.coordinates[nm(v)].reshape(len(res), -1) for v in node.vars()], dim=1).double().numpy()
+        if len(X) != n * kk:
+            rep.fail(f"intensified LHS test: design {c + 1} has {len(X)} rows for n={n} and {len(prows)} parameter rows", inp_of(case))
+            return
+        for i in range(kk):
+            rows = X[i * n:(i + 1) * n]
+            for ax, (lo, hi) in enumerate(bounds_rows[i]):
+                t = (rows[:, ax] - float(lo)) / float(hi - lo) * n
+                sl = np.clip(np.floor(t), 0, n - 1)
+                if c < 40 or len(set(sl.tolist())) != n:        # exact check on the first designs and whenever the float view is suspicious
+                    m = slab_check([float(x) for x in rows[:, ax].tolist()], lo, hi, n)
+                    if m and not (abs(rows[:, ax] - float(lo)).min() < 1e-6 * float(hi - lo) or abs(rows[:, ax] - float(hi)).min() < 1e-6 * float(hi - lo)):
+                        rep.fail(f"intensified LHS test (tape unusable), design {c + 1}: not exactly one point per slab: axis {ax}: {m}", inp_of(case),
+                                 detail=dict(parameter_row=row_env_json(case, i), points=rows.tolist()[:60]))
+                        return
+                offs.append(t - sl)
+                first.append(int(sl[0]))
+    offs = np.clip(np.concatenate(offs), 0, 1 - 1e-12)
+    rep.count("chi2-tests")
+    v = chi2_decide(np.bincount(np.floor(offs * 8).astype(int), minlength=8).tolist(), [1 / 8] * 8, [f"offset in [{j}/8,{j + 1}/8) of the slab" for j in range(8)])
+    if not v["ok"]:
+        w = v["worst"]
+        rep.fail(f"intensified LHS test (tape unusable, {calls} designs): the position of the points inside their slabs is not uniform: '{w['cell']}' "
+                 f"holds {w['observed']} of {v['N']} points, expected {w['expected']} (chi-square {v['stat']} > {v['bound']})", inp_of(case), detail=dict(chi2=v))
+        return
+    G = min(n, 4)
+    if G >= 2:
+        grp = [s_ * G // n for s_ in first]
+        probs = [sum(1 for s_ in range(n) if s_ * G // n == g) / n for g in range(G)]
+        rep.count("chi2-tests")
+        v = chi2_decide(np.bincount(grp, minlength=G).tolist(), probs, [f"slab group {g + 1}/{G}" for g in range(G)])
+        if not v["ok"]:
+            w = v["worst"]
+            rep.fail(f"intensified LHS test (tape unusable, {calls} designs): the slab of the first output row is not uniform over the slabs: '{w['cell']}' "
+                     f"occurred {w['observed']} of {v['N']} times, expected {w['expected']} (chi-square {v['stat']} > {v['bound']})", inp_of(case), detail=dict(chi2=v))
+            return
+    rep.count("tape-unusable:lhs-law-confirmed-by-intensified-oracle")
+
+
+def _lhs_call(tp, rep, case, lines, posts, node, dom, prows, params, n, tape, X32, call, sampler):
     import torch
     kk = max(len(prows), 1)
     dim = X32.shape[1]
@@ -1560,8 +1740,10 @@ def _lhs_call(tp, rep, case, lines, posts, node, dom, prows, params, n, tape, X3
     perms = tape.of("randperm")
     topped = len(tape.of("rand")) != len(rands)
     if len(rands) != dim * kk or len(perms) != dim * kk:
-        rep.disagree("LHS correspondence: one shift vector and one permutation per axis and parameter row", inp_of(case),
-                     dict(rand=len(rands), randperm=len(perms)), dict(expected=dim * kk))
+        # another call pattern (e.g. one rand((n, dim)) and argsort permutations): the column correspondence is unusable;
+        # what the theorem needs is checked on the output instead (run_lhs -> lhs_intensified)
+        rep.count("tape-unusable:lhs-call-pattern")
+        case["_lhs_tape_unusable"] = True
         rands = perms = None
     for i in range(kk):
         env = prows[i] if prows else {}
@@ -1603,6 +1785,10 @@ def _lhs_call(tp, rep, case, lines, posts, node, dom, prows, params, n, tape, X3
                 if len(model) != len(col) or any(abs(a - b) > 2e-6 * max(1.0, abs(b), abs(w)) for a, b in zip(col, model)):
                     rep.disagree("LHS column correspondence: column = (linspace(lo,hi,n+1)[:-1] + (hi-lo)/n * shifts)[permutation]",
                                  dict(inp_of(case), axis=ax, parameter_row=i), col[:8], model[:8])
+                    if not case.get("_lhs_int_done"):        # failing-input search for exactly this case
+                        case["_lhs_int_done"] = True
+                        set_naming(case)
+                        lhs_intensified(tp, rep, case, node, sampler, prows, params, n)
                 else:
                     rep.count("lhs:columns-agree")
                     rep.traces_validated += 1
@@ -1808,6 +1994,7 @@ def run(ctx, rep, cases=None):
     if cases is None:
         cases = make_cases(ctx)
     lines, plan = [], []       # plan: (case, callable taking its replies, number of replies)
+    tape_retry = []
     for cs in cases:
         node = geomgen.from_json(cs["dom"])
         kind = cs["kind"]
@@ -1830,7 +2017,7 @@ def run(ctx, rep, cases=None):
             if kind == "tape":
                 out = run_tape(tp, cs, my_lines)
                 my_lines = out["reqs"]
-                posts = [("all", lambda replies, cs=cs, out=out: judge_tape(rep, cs, out, replies))]
+                posts = [("all", lambda replies, cs=cs, out=out: judge_tape(rep, cs, out, replies, tape_retry))]
             elif kind == "law":
                 run_law(tp, rep, cs)
             elif kind == "csg":
@@ -1884,6 +2071,8 @@ def run(ctx, rep, cases=None):
                 f(*rs[pos:pos + k]); pos += k
             else:
                 p(rs[pos]); pos += 1
+    if tape_retry:
+        resolve_tape_retries(tp, rep, tape_retry)
 
 
 def replay(ctx, obj):
